@@ -25,10 +25,11 @@ func init() {
 			"the AST's own MarshalJSON is a faithful, complete rendering of the tree (identifiers, literal values and bases, operators, types, access, conditions)",
 			"position-bearing keys are exactly those named Range or ending in Pos/Position (monitor unstripped_positions must stay 0); DocString keys hold comments and are ignored",
 			"Program.String() is the canonical pretty print",
+			"a linear-time reflective comparison of the two ASTs is used as a pre-check; every difference it finds is confirmed by the JSON oracle, and 1/16 of its equal verdicts are re-checked with the JSON oracle (monitor reflect_json_disagree must stay 0)",
 		},
 		NumCases: func(tier string) int {
 			if tier == "thorough" {
-				return 1600
+				return 1200
 			}
 			return 64
 		},
@@ -161,7 +162,7 @@ func evalC38Raw(src []byte, unstripped *int) (accepted bool, f *c38Finding, fixe
 		s1 := stripTree(t1, unstripped)
 		s2 := stripTree(t2, nil)
 		jsonEqual := canon(s1) == canon(s2)
-		if jsonEqual != (r1 == r2) {
+		if !jsonEqual && r1 == r2 { // the pre-check must never hide a difference the JSON oracle sees
 			reflectJSONDisagree++
 		}
 		if !jsonEqual {
